@@ -91,6 +91,37 @@ int main(int argc, char **argv) {
     printf("HELD on all runs\n");
     return 0;
   }
+  if (argc >= 4 && !strcmp(argv[1], "bfs")) {
+    /* breadth-first over the contexts reachable from the pristine one: <steps> levels, every answer pattern of <bits>
+       bits per step, visited contexts deduplicated (flags, config, history, invocations) */
+    int steps = atoi(argv[2]); nbits = atoi(argv[3]); skiphist = argc > 4;
+    enum { MAXS = 20000 };
+    static uscxml_ctx seen[MAXS]; static int parent[MAXS]; static unsigned long long how[MAXS]; static int depth[MAXS];
+    int nseen = 0, head = 0;
+    init_ctx(&seen[0]); parent[0] = -1; depth[0] = 0; nseen = 1;
+    while (head < nseen) {
+      int cur = head++;
+      if (depth[cur] >= steps) continue;
+      for (answers = 0; answers < (1ULL << nbits); answers++) {
+        uscxml_ctx c = seen[cur]; apos = 0;
+        int r = uscxml_step(&c);
+        if (r != USCXML_ERR_OK && r != USCXML_ERR_IDLE) continue;
+        if (c.flags & (USCXML_CTX_FINISHED | USCXML_CTX_TOP_LEVEL_FINAL)) continue;
+        if (!ok_state(&c)) {
+          printf("REPRODUCED reachable from the pristine context in %d steps: ", depth[cur] + 1); show("config", c.config); printf(" "); show("history", c.history); printf("\n  path (answer pattern per step, newest first): 0x%llx", answers);
+          for (int k = cur; parent[k] >= 0; k = parent[k]) printf(" <- 0x%llx", how[k]);
+          printf("\n");
+          return 1;
+        }
+        int known = 0;
+        for (int k = 0; k < nseen && !known; k++)
+          known = seen[k].flags == c.flags && !memcmp(seen[k].config, c.config, sizeof c.config) && !memcmp(seen[k].history, c.history, sizeof c.history) && !memcmp(seen[k].invocations, c.invocations, sizeof c.invocations);
+        if (!known && nseen < MAXS) { seen[nseen] = c; parent[nseen] = cur; how[nseen] = answers; depth[nseen] = depth[cur] + 1; nseen++; }
+      }
+    }
+    printf("HELD on all %d contexts reachable within %d steps\n", nseen, steps);
+    return 0;
+  }
   fprintf(stderr, "usage: replay_genc pre <flags> <confighex> <historyhex> <bits> | reach <steps> <bits>\n");
   return 2;
 }
